@@ -16,18 +16,6 @@ func init() {
 	register("crosser", opCrosser)
 }
 
-func crossStr(c s2.Crossing) string {
-	switch c {
-	case s2.Cross:
-		return "CROSS"
-	case s2.MaybeCross:
-		return "MAYBE"
-	case s2.DoNotCross:
-		return "NO"
-	}
-	return fmt.Sprintf("BAD(%d)", int(c))
-}
-
 func opCross4(raw json.RawMessage, o *Out) {
 	var c struct {
 		A, B, C, D emb.P3
